@@ -643,7 +643,11 @@ static void op_args_env(const Op& op) {
     if (ld32(cp) != vec.size()) V("args", what + "_sizes_get:count", std::to_string(ld32(cp)) + " expected " + std::to_string(vec.size()));
     if (ld32(sp) != total) V("args", what + "_sizes_get:buf-size", std::to_string(ld32(sp)) + " expected " + std::to_string(total));
     uint32_t pp = galloc((uint32_t)vec.size() * 4 + 4, 1), bp = galloc((uint32_t)total + 8, 1);
-    memset(X->mem + bp, 0x33, total + 8);
+    int place = (int)op.get("place");
+    bool at_end = false;
+    if (place == 1 && total > 0 && total < 60000) { bp = X->memsize - (uint32_t)total; at_end = true; }                       // last string's NUL is the last byte of memory
+    if (place == 2 && !vec.empty() && vec.size() < 10000) pp = X->memsize - (uint32_t)vec.size() * 4;                      // last pointer slot ends the memory
+    memset(X->mem + bp, 0x33, at_end ? total : total + 8);
     r = (uint32_t)wcall(op, env ? "environ_get" : "args_get", {pp, bp});
     if (r != 0) { V("args", what + "_get:failed", std::to_string(r)); return; }
     uint32_t exp = bp;
@@ -653,7 +657,7 @@ static void op_args_env(const Op& op) {
         if (memcmp(X->mem + p, vec[i].c_str(), vec[i].size() + 1) != 0) { V("args", what + "_get:string", "string " + std::to_string(i) + " of " + std::to_string(vec.size()) + " (length " + std::to_string(vec[i].size()) + ") differs"); return; }
         exp += (uint32_t)vec[i].size() + 1;
     }
-    for (uint32_t k = 0; k < 8; k++) if (X->mem[bp + total + k] != 0x33) { S->extra_guest_writes++; break; }
+    if (!at_end) for (uint32_t k = 0; k < 8; k++) if (X->mem[bp + total + k] != 0x33) { S->extra_guest_writes++; break; }
 }
 static void op_clock(const Op& op) {
     uint32_t id = (uint32_t)op.get("id"); uint32_t rp = galloc(8, (uint32_t)(1 + X->data.below(8)));
